@@ -106,19 +106,32 @@ type ccase struct {
 
 // peer answers requests according to the policy; it keeps the production table.
 type peer struct {
-	e       *env
-	rnd     *rand.Rand
-	seen    int
-	pending []ref.Msg
-	prod    sync.Map // token(string) -> produced body
-	reqSeen map[string]int
-	n       int
-	total   int
+	e        *env
+	rnd      *rand.Rand
+	seen     int
+	pending  []ref.Msg
+	prod     sync.Map // token(string) -> produced body
+	reqSeen  map[string]int
+	n        int
+	total    int
+	crossing bool
+	// held: datagram requests not answered yet; crossed: tokens whose response travelled in the ACK of ANOTHER request
+	// (a delayed response riding on a later acknowledgement): the ACK acknowledges by message ID, the response is matched
+	// by token - a call may get nothing out of it, but never another request's content
+	held    []ref.Msg
+	crossed sync.Map
 }
 
 func (p *peer) isRequest(m ref.Msg) bool { return m.Code >= 1 && m.Code <= 4 }
 
 func (p *peer) flush() {
+	if p.n >= p.total {
+		for _, x := range p.held {
+			xb, _ := p.prod.Load(string(x.Token))
+			p.pending = append(p.pending, ref.Msg{Type: 2, Code: 0x45, MID: x.MID, Token: x.Token, Payload: xb.([]byte)})
+		}
+		p.held = nil
+	}
 	p.rnd.Shuffle(len(p.pending), func(i, j int) { p.pending[i], p.pending[j] = p.pending[j], p.pending[i] })
 	for _, m := range p.pending {
 		p.e.inject(m)
@@ -140,8 +153,29 @@ func (p *peer) step() bool {
 		body := produce(m.Token, m.Payload)
 		p.prod.Store(string(m.Token), body)
 		pol := p.rnd.Intn(6)
+		if p.e.kind == "udp" && p.crossing {
+			pol = p.rnd.Intn(9)
+		}
 		if p.e.kind == "udp" {
 			switch pol {
+			case 6, 7: // hold: answered later, possibly inside another request's ACK
+				if len(p.held) < 3 && p.n < p.total && m.Type == 0 {
+					p.held = append(p.held, m)
+					continue
+				}
+				fallthrough
+			case 8: // the ACK of this request carries the response of a held one; this request is answered separately
+				if len(p.held) > 0 && m.Type == 0 {
+					x := p.held[0]
+					p.held = p.held[1:]
+					xb, _ := p.prod.Load(string(x.Token))
+					p.crossed.Store(string(x.Token), true)
+					p.e.inject(ref.Msg{Type: 2, Code: 0x45, MID: m.MID, Token: x.Token, Payload: xb.([]byte)})
+					p.e.inject(ref.Msg{Type: 2, Code: 0, MID: x.MID})
+					p.pending = append(p.pending, ref.Msg{Type: 1, Code: 0x45, MID: uint16(p.e.mid.Add(1)), Token: m.Token, Payload: body})
+					break
+				}
+				p.pending = append(p.pending, ref.Msg{Type: 2, Code: 0x45, MID: m.MID, Token: m.Token, Payload: body})
 			case 0, 3: // piggybacked, possibly duplicated
 				a := ref.Msg{Type: 2, Code: 0x45, MID: m.MID, Token: m.Token, Payload: body}
 				p.pending = append(p.pending, a)
@@ -187,8 +221,14 @@ func (p *peer) run(stop chan struct{}) {
 			continue
 		}
 		idle++
-		if idle > 40 && len(p.pending) > 0 {
-			p.flush() // nobody else is coming: release what is held back
+		if idle > 40 && (len(p.pending) > 0 || len(p.held) > 0) {
+			// nobody else is coming: release what is held back
+			for _, x := range p.held {
+				xb, _ := p.prod.Load(string(x.Token))
+				p.pending = append(p.pending, ref.Msg{Type: 2, Code: 0x45, MID: x.MID, Token: x.Token, Payload: xb.([]byte)})
+			}
+			p.held = nil
+			p.flush()
 		}
 		time.Sleep(25 * time.Microsecond)
 	}
@@ -223,7 +263,7 @@ func mkToken(rnd *rand.Rand, mode string, i int) []byte {
 func runCase(rec *vr.Rec, c ccase, rnd *rand.Rand) {
 	e := newEnv(c.Kind, c.Blockwise, c.Queue)
 	defer e.cc.Close()
-	p := &peer{e: e, rnd: rand.New(rand.NewSource(rnd.Int63())), reqSeen: map[string]int{}, total: c.Callers}
+	p := &peer{e: e, rnd: rand.New(rand.NewSource(rnd.Int63())), reqSeen: map[string]int{}, total: c.Callers, crossing: c.Policy == "crossed-acks"}
 	stop := make(chan struct{})
 	var pwg sync.WaitGroup
 	pwg.Add(1)
@@ -256,6 +296,10 @@ func runCase(rec *vr.Rec, c ccase, rnd *rand.Rand) {
 			e.cc.ReleaseMessage(req)
 			if err != nil {
 				errN.Add(1)
+				if _, x := p.crossed.Load(string(tok)); x {
+					rec.Count("calls_failed_whose_response_rode_on_a_foreign_ack", 1)
+					return
+				}
 				rec.Violation("C03/"+c.Kind+"/call-failed", fmt.Sprintf("caller %d token %x: %v", i, tok, err), c)
 				return
 			}
@@ -550,7 +594,7 @@ func collision(rec *vr.Rec, kind string, n int, rnd *rand.Rand) {
 }
 
 func TestRun(t *testing.T) {
-	rec := vr.New("C03", "histories: 1..32 (quick) / 1..128 (thorough) callers released together on one real udp (in-memory session) or tcp (scripted net.Conn) connection, block-wise on/off, receive-queue sizes 0/1/16, tokens {library-generated 8-byte, caller-chosen 1..8 bytes, shared 5-byte prefix, zero-prefixed families that differ only in length}; the scripted peer answers piggybacked / piggybacked twice / empty ACK + separate CON or NON / separate twice, holds answers back and releases them permuted; equal-token races from a barrier; 7-byte vs CRC-64-colliding 8-byte token with a late response to a cancelled request. Distinct = distinct history tuples (transport, block-wise, queue, callers, token mode, PRNG policy stream).")
+	rec := vr.New("C03", "histories: 1..32 (quick) / 1..128 (thorough) callers released together on one real udp (in-memory session) or tcp (scripted net.Conn) connection, block-wise on/off, receive-queue sizes 0/1/16, tokens {library-generated 8-byte, caller-chosen 1..8 bytes, shared 5-byte prefix, zero-prefixed families that differ only in length}; the scripted peer answers piggybacked / piggybacked twice / empty ACK + separate CON or NON / separate twice, holds answers back and releases them permuted; crossed-acks policy (datagram): the response of a held request travels in the ACK of a later request, which is itself answered separately; equal-token races from a barrier; 7-byte vs CRC-64-colliding 8-byte token with a late response to a cancelled request. Distinct = distinct history tuples (transport, block-wise, queue, callers, token mode, PRNG policy stream).")
 	defer rec.Flush(true)
 	seed := vr.Seed()
 	rnd := rand.New(rand.NewSource(seed))
@@ -564,6 +608,16 @@ func TestRun(t *testing.T) {
 			Callers:   1 + rnd.Intn(maxCallers),
 			Tokens:    []string{"library", "short", "shared-prefix", "zero-prefix"}[rnd.Intn(4)],
 			Policy:    fmt.Sprintf("prng-%d", i),
+		})
+	}
+	for i := 0; i < vr.Scale(60, 3000); i++ {
+		cases = append(cases, ccase{
+			Kind:      "udp",
+			Blockwise: i%2 == 0,
+			Queue:     []int{0, 1, 16}[i%3],
+			Callers:   2 + rnd.Intn(maxCallers),
+			Tokens:    []string{"library", "short", "shared-prefix", "zero-prefix"}[rnd.Intn(4)],
+			Policy:    "crossed-acks",
 		})
 	}
 	var wg sync.WaitGroup
